@@ -42,6 +42,10 @@ func genC18Attr(t *rapid.T, depth int, solidOnly bool) slog.Attr {
 	if depth <= 0 && k >= 9 && k <= 11 {
 		k = 0
 	}
+	if !solidOnly && rapid.IntRange(0, 7).Draw(t, "keylessAttr") == 0 {
+		// an attribute without a key is not an EMPTY attribute unless its value is the zero Value too
+		key = ""
+	}
 	switch k {
 	case 0:
 		return slog.String(key, genStr().Draw(t, "sv"))
